@@ -481,7 +481,12 @@ def eval_case(model, cfg, ops=None, rng=None, nops=0, malformed=False):
                 continue
             for v in vs:
                 tag = v.split(":")[0]
-                if tag in REFUTED or (forgot and tag in ("i-oid", "i-path")):
+                if forgot and tag not in REFUTED:
+                    # forget_oid (no caller in the engine, not among the property's operations) detaches an
+                    # entry from the indexes while the entry keeps its id: everything after it is outside
+                    # the claimed domain; counted, not reported
+                    out["refuted"].append((i, "after-forget-" + v))
+                elif tag in REFUTED:
                     out["refuted"].append((i, v))
                 else:
                     out["claimed"].append((i, v))
